@@ -1,6 +1,8 @@
 /- the real-number carrier of the kernel model -/
 import Mathlib.Analysis.SpecialFunctions.Pow.Real
 import Mathlib.Analysis.SpecialFunctions.Trigonometric.Basic
+import Mathlib.Analysis.SpecialFunctions.Complex.Arg
+import Mathlib.Analysis.SpecialFunctions.Log.Basic
 import Mathlib.Tactic
 import MagpyVerif.Model.Kernels
 
@@ -16,6 +18,8 @@ open Classical
   mu0 := μ
   lt a b := decide (a < b)
   eq0 a := decide (a = 0)
+  log := Real.log
+  atan2 := fun y x => Complex.arg ⟨x, y⟩
 
 /-- a fixed positive real standing for mu_0 where its value does not matter -/
 noncomputable def mu0R : ℝ := 4 * Real.pi * (1 / 10000000)
@@ -28,6 +32,8 @@ theorem mu0R_pos : 0 < mu0R := by unfold mu0R; positivity
 @[simp] theorem sqrt_real (μ : ℝ) (x : ℝ) : @Num.sqrt ℝ (realNum μ) x = Real.sqrt x := rfl
 @[simp] theorem abs_real (μ : ℝ) (x : ℝ) : @Num.abs ℝ (realNum μ) x = |x| := rfl
 @[simp] theorem lt_real (μ : ℝ) (a b : ℝ) : @Num.lt ℝ (realNum μ) a b = decide (a < b) := rfl
+@[simp] theorem log_real (μ : ℝ) (x : ℝ) : @Num.log ℝ (realNum μ) x = Real.log x := rfl
+@[simp] theorem atan2_real (μ : ℝ) (y x : ℝ) : @Num.atan2 ℝ (realNum μ) y x = Complex.arg ⟨x, y⟩ := rfl
 @[simp] theorem eq0_real (μ : ℝ) (a : ℝ) : @Num.eq0 ℝ (realNum μ) a = decide (a = 0) := rfl
 
 section
